@@ -286,6 +286,9 @@ def run_case(ctx, case, count=True):
         for r, z in zip(case["roots"], case.get("zoo") or [None] * len(case["roots"])):
             x = env[r]
             label = r if not z else f"{z}({r})"
+            if z and 0 in x.shape:
+                z = None  # zoo ops over zero-size arrays hit unrelated value/refusal defects (e.g. .blocks of an
+                label = r  # empty slice of a broadcast elementwise raises under optimization: reported)
             if z:
                 try:
                     x = ZOO[z](da, x)
